@@ -114,3 +114,30 @@ func zzH_C17_intrinsic() {
 	}
 	zzverif.Reach("end")
 }
+
+// zzH_C17_base_cost: the default converter's intrinsic gas starts from 53000 for every
+// contract creation (no recipient) and from 21000 for every call, whatever the payload.
+//
+//verif:mode bv
+func zzH_C17_base_cost() {
+	data := zzverif.Bytes("data", zzverif.Choose("dataLen", 3))
+	var to *common.Address
+	if !zzverif.Bool("isCreation") {
+		to = &common.Address{2}
+	}
+	g, err := (&DefaultConverter{}).IntrinsicGas(data, to)
+	zzverif.Assert(err == nil, "small payloads never overflow")
+	nz := uint64(0)
+	for _, b := range data {
+		if b != 0 {
+			nz++
+		}
+	}
+	want := uint64(21000)
+	if to == nil {
+		zzverif.Reach("creation")
+		want = 53000
+	}
+	zzverif.Assert(g == want+params.TxDataNonZeroGas*nz+params.TxDataZeroGas*(uint64(len(data))-nz), "intrinsic gas = 21000 (call) / 53000 (creation) + the per-byte cost of the payload")
+	zzverif.Reach("end")
+}
